@@ -16,6 +16,8 @@
                    rc.mtx free), goes on.  The code the model describes calls RemoveKey inside the rc.mtx section, where
                    the harness never parks: the model has no such step (BadEvent); the monitors follow it.
              21 c  the owner of root context c (c > 0) calls its cancel function (the container is not told)
+             22 m  from now on the constructor callback returns: m = 0 a routine, 1 no routine (nil), otherwise no routine for
+                   odd keys (the harness's constructor reads the mode; nothing else happens)
    cond: 0 no condition, 1 always false, 2 "key is odd".  Outcomes: 0 nil, 1 context.Canceled, e+2 error e.
    Observation after every event:
      rets  nkeys (key data)*  ninst (code key data root canc)*  ndelta (key data outcome)*  ntimers (kind key deadline)*
@@ -138,6 +140,7 @@ Definition dec (h : hst) (e : list N) : option (ev * list N) :=
     end
   | [19] => Some (EGet, enc_keys (map fst (kmap s)))
   | [21; c] => if nz c then Some (ECancelRoot (n2n c), []) else None
+  | [22; m] => Some (ESetNil (n2n m), [])
   | _ => None
   end.
 
